@@ -253,6 +253,20 @@ theorem drawPort_isSome (n s lo hi idx : Nat) (hidx : idx < (ports n s lo hi).le
     simp only [] at hidx ⊢
     simp [hidx]
 
+/-- The draw returns nothing only when no port of the range maps to the shard: for every index the RNG can
+produce (an index into the candidate list; with an empty candidate list no index is drawn at all) a failed
+draw means the range holds no valid port. -/
+theorem drawPort_none_no_port (n s lo hi idx : Nat) (hn : 0 < n) (hs : s < n) (hhi : hi ≤ 65535)
+    (hidx : idx < (ports n s lo hi).length ∨ ports n s lo hi = [])
+    (h : drawPort n s lo hi idx = none) : ¬ ∃ p, lo ≤ p ∧ p ≤ hi ∧ p % n = s := by
+  rcases hidx with hidx | hnil
+  · have := drawPort_isSome n s lo hi idx hidx
+    rw [h] at this
+    cases this
+  · exact (ports_nil_iff n s lo hi hn hs hhi).mp hnil
+
+example : drawPort 4 3 10 14 0 = some 11 ∧ drawPort 4 3 12 14 0 = none := by decide
+
 /-- The iterator visits every valid port exactly once, whatever the random pivot. -/
 theorem iterPorts_perm (n s lo hi pivot : Nat) : (iterPorts n s lo hi pivot).Perm (ports n s lo hi) := by
   unfold iterPorts
